@@ -257,12 +257,12 @@ Proof.
   - apply evall_ret.
   - destruct (k_chan s) as [[i [|]]|]; auto. destruct (k_dead s); auto. apply handleWrite_ev.
   - destruct (k_chan s) as [[i [|]]|]; auto. destruct (k_dead s); auto. apply handleError_ev.
-  - destruct (min_due _); auto. destruct (has_dup _); auto. apply fire_all_ev.
+  - destruct (min_due _); auto.  apply fire_all_ev.
   - apply evall_bind; [apply run_n_ev; auto|]. intros; apply evall_ret.
   - destruct (pending s); auto. apply run_one_ev; auto.
   - destruct (find_down _ _ _); auto. apply handleClose_ev.
   - destruct (negb _); auto. destruct (connection s); auto. destruct (find_user _ _); auto. apply evall_ret.
-  - destruct (find_user _ _); auto. destruct (nth_error _ _); auto. destruct (_ && _); auto. apply evall_ret.
+  - destruct (find_user _ _); auto. destruct (nth_error _ _); auto. apply evall_ret.
 Qed.
 
 Lemma step_ev s o s' ev : Inv s -> contract s o = true -> step s o = Ok s' ev -> Forall c500 ev.
